@@ -782,6 +782,19 @@ def run_controlled(op, *, prefix=(), is_async=False, batch_order=False, watchdog
 
 FAIL: Dict[str, str] = {}  # node id -> 'V' | 'U'  (set by the check before running a program)
 RET_NONE: set = set()  # node ids whose function returns None
+RET_OBJ: set = set()  # node ids whose function returns a Resource-like object: identity matters, copying it is an error
+
+
+class Handle:
+    """What a setup node typically returns: a loaded model / connection. It holds a lock, so it can neither be deep-copied nor pickled,
+    and it is only equal to itself."""
+
+    def __init__(self, label, serial):
+        self.label, self.serial = label, serial
+        self.lock = threading.Lock()
+
+    def __repr__(self):
+        return f"<Handle {self.label}#{self.serial} at {id(self):#x}>"
 FAIL_IF_ARG: Dict[str, Any] = {}  # node id -> value: the node raises when one of its positional arguments equals it
 
 
@@ -801,6 +814,8 @@ def node_body(fname: str, a: tuple, k: dict):
     c.node_exit(nid, serial, "ok")
     if nid in RET_NONE:
         return None
+    if nid in RET_OBJ:
+        return Handle(nid, serial)
     return Tok(nid, serial)
 
 
